@@ -30,6 +30,18 @@ CLAIMED["C07"] = dict(
    note="Trusted: tuple comparison lexicographic, str.split/strip/splitlines uninterpreted, enum lookup by value, Fraction exact, the contract of _extract_keysound_indices (bounded only), well-formedness of rows as instantiated preconditions, generator laziness ignored, the VC generator, z3/cvc5.",
    technique="contract-based deductive verification (symbolic execution of the real AST, nested loop invariants, SMT) with two bounded stand-ins",
    design_ref="6/C07")
+CLAIMED["C16"] = dict(
+   category="proof",
+   text="_should_copy_property, _copy_properties (loop invariant: output == fold of the copied items), _convert_warps (loop invariant: no negative value so far), _convert for all four template configurations (loop invariant over the charts list) and sm_to_ssc are symbolically executed from the working tree and every obligation is discharged: the result's mapping is the template (or the evaluated blank) overlaid with every source property in order, charts are the template's charts followed by one converted chart per source chart in order, source and templates are unmodified and unshared (frame obligations from the write log), NotImplementedError exactly for a negative BPM/stop value.",
+   note="Trusted: ordered-map theory, deepcopy, blank() as evaluated closed terms, charts as values, BeatValues.from_str callee contract (C14), monotonicity of prefix predicates, VC generator, z3/cvc5. 'Timing and notes identical through the library's readers' and 're-loads equal' follow from the mapping equation plus C15/C18/C02 contracts; that composition is argued in DESIGN.md, not mechanised. Known finding FREEZES is reported, not suppressed.",
+   technique="contract-based deductive verification: loop invariants over prefix spec functions on the real AST, z3/cvc5",
+   design_ref="6/C16")
+CLAIMED["C17"] = dict(
+   category="proof",
+   text="Same units as C16 in the SSC->SM direction with an arbitrary (possibly partial) behaviour mapping as symbolic input: every property is copied, skipped or refused exactly per its kind's behaviour (documented defaults for unspecified kinds, trimmed-value-equals-default rule), InvalidPropertyException names the first offending property in iteration order (simfile properties first, then charts in order), NotImplementedError takes precedence when WARPS is non-empty, no other exception escapes, source and templates are unmodified. All 4^5 x partial mappings are one symbolic query.",
+   note="Trusted as C16. The behaviour tables are written out in the sidecar contract so that an edit of the repository's tables is noticed. Domain per the statement: upper-case keys, SSC-only properties hold strings, non-empty templates; the bare KeyError for chart keys the SM chart cannot hold is the given known finding and is reported. The SM->SSC->SM round-trip clause follows from the two mapping equations; not mechanised.",
+   technique="contract-based deductive verification: loop invariants over prefix spec functions on the real AST, z3/cvc5",
+   design_ref="6/C17")
 NA_REASON = "not yet brought under contract in this session (work in progress; see DESIGN.md section 6 for the plan)"
 
 NA_TABLE = {}
